@@ -13,7 +13,9 @@ import (
 	"strings"
 
 	"github.com/graphql-go/graphql/gqlerrors"
+	"github.com/graphql-go/graphql/language/ast"
 	"github.com/graphql-go/graphql/language/lexer"
+	"github.com/graphql-go/graphql/language/printer"
 	"github.com/graphql-go/graphql/language/source"
 
 	"verif/harness/gen"
@@ -181,7 +183,7 @@ func main() {
 		return
 	}
 	defer drv.Close()
-	run.Res.Rule = "lexer: (a) ALL byte strings of <= 4 (quick) / <= 5 (thorough) symbols over the 16-symbol alphabet {a 1 0 . e - \" \\ n u SP LF # { $ é} (thorough adds <= 4 over a 26-symbol alphabet with CR , BOM 0xFF 0x01 E + / _ :), enumerated exhaustively; (b) grammar-generated documents (Exotic on) and their mutations (byte flip/insert/delete, BOM / multi-byte / invalid UTF-8 injected into comments, strings and Ignored positions, CR/LF/CRLF rewrites, truncation); (c) targeted streams for string escapes (all valid, malformed, \\u incl. surrogates and short forms), block strings (indentation, CR/LF mixes, escaped triple quotes, unterminated) and numeric edge forms. Non-trivial = at least one non-EOF token, or an error that is not 'unexpected character' at offset 0; distinct by source bytes. Compared per case: kinds, Start, End, Value bytes, error position and error call site, real vs M (always) and real vs S (unless a driver-evaluated KF predicate holds); Source.Body unchanged."
+	run.Res.Rule = "lexer: (a) ALL byte strings of <= 4 (quick) / <= 5 (thorough) symbols over the 16-symbol alphabet {a 1 0 . e - \" \\ n u SP LF # { $ é} (thorough adds <= 4 over a 26-symbol alphabet with CR , BOM 0xFF 0x01 E + / _ :), enumerated exhaustively; (b) grammar-generated documents (Exotic on) and their mutations (byte flip/insert/delete, BOM / multi-byte / invalid UTF-8 injected into comments, strings and Ignored positions, CR/LF/CRLF rewrites, truncation); (c) targeted streams for string escapes (all valid, malformed, \\u incl. surrogates and short forms), block strings (indentation, CR/LF mixes, escaped triple quotes, unterminated) and numeric edge forms. Non-trivial = at least one non-EOF token, or an error that is not 'unexpected character' at offset 0; distinct by source bytes. (d) quoteString: every single byte and random byte strings as a StringValue: printer output = the Lean model of quoteString, and lexing it gives the value back. Compared per case: kinds, Start, End, Value bytes, error position and error call site, real vs M (always) and real vs S (unless a driver-evaluated KF predicate holds); Source.Body unchanged."
 
 	one := func(c caseT) {
 		src, err := base64.StdEncoding.DecodeString(c.SrcB64)
@@ -281,19 +283,58 @@ func main() {
 		}
 	}
 
+	// ---- quoteString: the Lean model of printer.go's quoting function (theorem unquote_quote is about it) against the
+	// real printer, and the real round trip lexer(printer(s)) = s, for every single byte and random byte strings
+	quoteCase := func(val []byte) {
+		if run.TooManyViolations() {
+			return
+		}
+		var printed string
+		func() {
+			defer func() {
+				if r := recover(); r != nil {
+					printed = fmt.Sprint("!panic: ", r)
+				}
+			}()
+			printed = fmt.Sprint(printer.Print(ast.NewStringValue(&ast.StringValue{Value: string(val)})))
+		}()
+		var q struct {
+			Q string `json:"q"`
+		}
+		if err := drv.Ask(map[string]interface{}{"quote": base64.StdEncoding.EncodeToString(val)}, &q); err != nil {
+			run.CheckError(err.Error())
+			return
+		}
+		mq, _ := base64.StdEncoding.DecodeString(q.Q)
+		run.Tag("stream:quote")
+		run.Case("quote:"+base64.StdEncoding.EncodeToString(val), len(val) > 0, nil)
+		rpq := map[string]interface{}{"quote_value_b64": base64.StdEncoding.EncodeToString(val), "printed": fmt.Sprintf("%q", printed), "model_quoteString": fmt.Sprintf("%q", string(mq))}
+		if printed != string(mq) {
+			run.Violation("printer output for a StringValue differs from the model's quoteString", rpq, false)
+			return
+		}
+		g, _, fault := lexReal([]byte(printed))
+		if fault != "" || g.HasErr || len(g.Tokens) != 2 || g.Tokens[0].Kind != 18 || !bytes.Equal(g.Tokens[0].Value, val) || g.Tokens[0].End != len(printed) {
+			rpq["relexed"] = g.render()
+			run.Violation("lexing the printed StringValue does not give the value back (theorem unquote_quote contradicted on the real code)", rpq, false)
+		}
+	}
 	if run.ReplayIn != "" {
 		var rp struct {
-			Case caseT `json:"case"`
+			Case  caseT  `json:"case"`
+			Quote string `json:"quote_value_b64"`
 		}
 		if err := hx.LoadReplay(run.ReplayIn, &rp); err != nil {
 			run.CheckError(err.Error())
+		} else if rp.Case.SrcB64 == "" && rp.Quote != "" {
+			val, _ := base64.StdEncoding.DecodeString(rp.Quote)
+			quoteCase(val)
 		} else {
 			one(rp.Case)
 		}
 		run.Finish()
 		return
 	}
-
 	emit := func(stream string, b []byte) {
 		if run.TooManyViolations() {
 			return
@@ -326,6 +367,29 @@ func main() {
 		enum(ext, "exhaustive26", nil, 4)
 	}
 	run.Res.Exhaustive = false // the enumerated part is exhaustive; streams (b), (c) are sampled
+
+	if run.ReplayIn == "" {
+		for b := 0; b < 256; b++ {
+			quoteCase([]byte{byte(b)})
+			quoteCase([]byte{'a', byte(b), '"'})
+		}
+		nq := run.N(2000, 100000)
+		for i := 0; i < nq; i++ {
+			r := hx.Fork(run.Seed, 2000000+i)
+			val := make([]byte, r.Intn(12))
+			for k := range val {
+				switch r.Intn(4) {
+				case 0:
+					val[k] = byte(r.Intn(32))
+				case 1:
+					val[k] = []byte{'"', '\\', '/', 0x7f, 'u', 'n', 0xc3, 0xa9, 0xff}[r.Intn(9)]
+				default:
+					val[k] = byte(r.Intn(256))
+				}
+			}
+			quoteCase(val)
+		}
+	}
 
 	// ---- (c) targeted streams
 	strPieces := []string{"a", "é", "😀", "\xff", "\xc3", "\xe2\x82", " ", "\t", "\\\"", "\\\\", "\\/", "\\b", "\\f", "\\n", "\\r", "\\t",
